@@ -946,7 +946,7 @@ HMCIstaccess(accrec_t *access_rec, /* IN: access record to fill in */
             HGOTO_ERROR(DFE_SEEKERROR, FAIL);
 
         /* first read special tag header length which is 4 bytes */
-        if (Hread(dd_aid, 4, local_ptbuf) == FAIL)
+        if (Hread(dd_aid, 4, local_ptbuf) != 4)
             HGOTO_ERROR(DFE_READERROR, FAIL);
 
         /* Decode it */
@@ -965,8 +965,9 @@ HMCIstaccess(accrec_t *access_rec, /* IN: access record to fill in */
           if (( c_sp_header = (uint8 *) calloc(info->sp_tag_header_len,1))==NULL)
               HGOTO_ERROR(DFE_NOSPACE, FAIL);
 #endif
-        /* first read special header in */
-        if (Hread(dd_aid, info->sp_tag_header_len, c_sp_header) == FAIL)
+        /* first read special header in: all of it has to be there (a header that was only
+           partly written must not be decoded) */
+        if (Hread(dd_aid, info->sp_tag_header_len, c_sp_header) != info->sp_tag_header_len)
             HGOTO_ERROR(DFE_READERROR, FAIL);
 
         /* decode first special element header  */
@@ -992,6 +993,9 @@ HMCIstaccess(accrec_t *access_rec, /* IN: access record to fill in */
             UINT16DECODE(p, info->sp_ref);     /* 2 bytes */
             INT32DECODE(p, info->ndims);       /* 4 bytes */
                                                /* = 29 bytes */
+            /* the dimension records and the fill value length have to fit into the header */
+            if (info->ndims <= 0 || 29 + 12 * (int64_t)info->ndims + 4 > (int64_t)info->sp_tag_header_len)
+                HGOTO_ERROR(DFE_INTERNAL, FAIL);
             /* create dimension, seek_block and seek_pos arrays
                given number of dims */
             if (create_dim_recs(&(info->ddims), &(info->seek_chunk_indices), &(info->seek_pos_chunk),
@@ -1011,6 +1015,8 @@ HMCIstaccess(accrec_t *access_rec, /* IN: access record to fill in */
                 info->ddims[j].distrib_type = (int32)(0xff & info->ddims[j].flag);
                 info->ddims[j].unlimited    = (int32)(0xff & ((uint32)(info->ddims[j].flag >> 8)));
 
+                if (info->ddims[j].chunk_length <= 0)
+                    HGOTO_ERROR(DFE_INTERNAL, FAIL);
                 info->ddims[j].num_chunks = info->ddims[j].dim_length / info->ddims[j].chunk_length;
                 /* check to see if need to increase # of chunks along this dim*/
                 if ((odd_size = (info->ddims[j].dim_length % info->ddims[j].chunk_length)))
@@ -1028,6 +1034,10 @@ HMCIstaccess(accrec_t *access_rec, /* IN: access record to fill in */
 
             /* decode fill value length */
             INT32DECODE(p, (info->fill_val_len)); /* 4 bytes */
+
+            if (info->fill_val_len < 0 ||
+                29 + 12 * (int64_t)info->ndims + 4 + (int64_t)info->fill_val_len > (int64_t)info->sp_tag_header_len)
+                HGOTO_ERROR(DFE_INTERNAL, FAIL);
 
             /* allocate space for fill value */
             if ((info->fill_val = malloc((size_t)info->fill_val_len)) == NULL)
